@@ -42,8 +42,15 @@ def observe(feats, cfg, dbfn=":memory:"):
                 fails.append(("lookup_exact", f.id))
         except Exception as e:  # noqa
             fails.append(("lookup_raised", f.id))
-    for absent in ("no_such_key", "", "K_99"):
-        if absent in [f.id for f in rows]:
+    stored_ids = [f.id for f in rows]
+    look = dbio.lookups(db, stored_ids)
+    want = dbio.expected_lookups(snap["feats"], stored_ids)
+    for k in stored_ids:
+        if look[k] != want[k]:
+            fails.append(("lookup_after_edit_of_returned_object", k))
+            break
+    for absent in ["no_such_key", "", "K_99"] + [i.swapcase() for i in stored_ids] + [i.upper() for i in stored_ids]:
+        if absent in stored_ids:
             continue
         try:
             db[absent]
@@ -100,7 +107,7 @@ def random_hist(rng, n):
             attrs = []
             for k in rng.sample(keys, rng.randint(0, 3)):
                 nv = rng.choice([0, 1, 1, 1, 1, 2]) if rng.random() < 0.15 else 1
-                attrs.append((k, [rng.choice(["a", "b", "c", "d", "e", "gene_1", "x_1"]) + rng.choice(["", "", "1", "2"]) for _ in range(nv)]))
+                attrs.append((k, [rng.choice(["a", "b", "c", "d", "e", "A", "B", "gene_1", "Gene_1", "x_1"]) + rng.choice(["", "", "1", "2"]) for _ in range(nv)]))
             feats.append(G.feat(rng.choice(["gene", "mRNA", "exon"]), rng.randint(1, 50), rng.randint(50, 90), attrs,
                                 seqid=rng.choice(["chr1", "chr2"]), strand=rng.choice(["+", "-", "."])))
         cfg = dict(G.DEFAULT_CFG, idspec=rng.choice(specs), strategy="create_unique")
@@ -125,8 +132,48 @@ def counter_histories(rng, n):
             steps.append({"op": "update", "feats": batch, "cfg": cfg, "backup": False})
             if rng.random() < 0.6:
                 steps.append({"op": "reopen"})
+            if rng.random() < 0.5:
+                steps.append({"op": "delete", "ids": [], "pick": rng.randrange(1000), "backup": False})      # ids are chosen from the model's keys at that step
         hist.append({"init": {"feats": init, "cfg": cfg, "dirs": []}, "steps": steps, "rel": False})
     return hist
+
+
+def resolve_deletes(ctx, ch):
+    """delete steps name keys the model holds at that step: run the model, fill in the ids of the first unresolved delete of every history, repeat;
+    finally every history carries its universe of keys (every key the model ever stored, and their case variants) for the look-ups"""
+    for _ in range(6):
+        exp = G.model(ctx, ch, label="auto-numbering across update / delete / reopen (look-ups on the live handle)")
+        todo = False
+        for h, e in zip(ch, exp):
+            for k, s in enumerate(h["steps"]):
+                if s["op"] == "delete" and not s["ids"]:
+                    keys = [f["id"] for f in e["traj"][k]["db"]["feats"]]          # the state before step k (traj[0] is the created database)
+                    if keys:
+                        s["ids"] = [keys[s["pick"] % len(keys)]]
+                        todo = True
+                    else:
+                        s["ids"] = [enc("nothing_to_delete")]
+                    break
+        if not todo:
+            break
+    for h, e in zip(ch, exp):
+        keys = sorted(set(dec(f["id"]) for t in e["traj"] if t["st"] == "ok" for f in t["db"]["feats"]))
+        h["universe"] = sorted(set(keys + [k.swapcase() for k in keys] + ["no_such_key"]))
+    return exp
+
+
+def lookup_clause(t, got, universe):
+    """GffDB!Lookup: db[key] on the live handle is the feature the model stores under key at this step, FeatureNotFoundError otherwise"""
+    want = dbio.expected_lookups(t["db"]["feats"], universe)
+    for k in universe:
+        o = got["look"].get(k)
+        if o != want[k]:
+            if want[k] == "notfound":
+                return ("lookup_of_absent_key_returns", k, o)
+            if o == "notfound":
+                return ("lookup_of_stored_key_not_found", k, o)
+            return ("lookup_not_the_stored_feature", k, o)
+    return None
 
 
 def run_history(args):
@@ -137,18 +184,24 @@ def run_history(args):
     try:
         with dbio.quiet():
             db = gffutils.create_db([G.real_feature(f) for f in h["init"]["feats"]], path, force=True, **G.real_kwargs(h["init"]["cfg"]))
-        out.append({"st": "ok", "db": dbio.proj_file(path)})
+        uni = h.get("universe", [])
+        out.append({"st": "ok", "db": dbio.proj_file(path), "look": dbio.lookups(db, uni)})
         for s in h["steps"]:
             if s["op"] == "reopen":
                 db.conn.close()
                 db = gffutils.FeatureDB(path)
-                out.append({"st": "ok", "db": dbio.proj_file(path)})
+                out.append({"st": "ok", "db": dbio.proj_file(path), "look": dbio.lookups(db, uni)})
+                continue
+            if s["op"] == "delete":
+                with dbio.quiet():
+                    db.delete([dec(i) for i in s["ids"]], make_backup=False)
+                out.append({"st": "ok", "db": dbio.proj_file(path), "look": dbio.lookups(db, uni)})
                 continue
             try:
                 with dbio.quiet():
                     kw = G.real_kwargs(s["cfg"])
                     db.update([G.real_feature(f) for f in s["feats"]], make_backup=False, **kw)
-                out.append({"st": "ok", "db": dbio.proj_file(path)})
+                out.append({"st": "ok", "db": dbio.proj_file(path), "look": dbio.lookups(db, uni)})
             except Exception as e:  # noqa
                 out.append({"st": "raise:" + type(e).__name__, "db": None})
                 break
@@ -211,7 +264,7 @@ def run(ctx):
     ctx.traces += len(hist)
     # numbering across updates and reopenings (file databases)
     ch = counter_histories(ctx.rng, 600 if thorough else 120)
-    exp = G.model(ctx, ch, label="auto-numbering across update / reopen")
+    exp = resolve_deletes(ctx, ch)
     obs = core.pmap(run_history, [(h, ctx.path("c04h_%d.db" % k)) for k, h in enumerate(ch)])
     for h, e, o in zip(ch, exp, obs):
         case = {"init": h["init"], "steps": h["steps"], "lines": [G.gff3_line(f) for f in h["init"]["feats"]] +
@@ -225,6 +278,10 @@ def run(ctx):
             if bad:
                 ctx.violation(case, "step%d:%s" % (k, bad), {"expected_keys": [dec(f["id"]) for f in t["db"]["feats"]], "observed_keys": [dec(f["id"]) for f in got["db"]["feats"]]})
                 break
+            bad = lookup_clause(t, got, h["universe"])
+            if bad:
+                ctx.violation(case, "step%d:%s" % (k, bad[0]), {"key": bad[1], "observed": bad[2] if isinstance(bad[2], str) else "a feature", "stored_keys": [dec(f["id"]) for f in t["db"]["feats"]]})
+                break
         ctx.count(("hist", h["init"]["feats"], h["steps"]), True)
     ctx.traces += len(ch)
     ctx.assumptions += ["inputs are Feature objects (no text parsing involved); ':field:' specs are exercised with text columns",
@@ -236,11 +293,13 @@ def replay(ctx, rec):
     if "steps" in c:
         h = {"init": c["init"], "steps": c["steps"], "rel": False}
         e = G.model(ctx, [h], workers=1)[0]
+        keys = sorted(set(dec(f["id"]) for t in e["traj"] if t["st"] == "ok" for f in t["db"]["feats"]))
+        h["universe"] = sorted(set(keys + [k.swapcase() for k in keys] + ["no_such_key"]))
         o = run_history((h, ctx.path("replay.db")))
         for t, got in zip(e["traj"], o):
             if got["st"] != "ok":
                 return t["st"] == "ok"
-            if G.diff_clause(G.canon_snap(t["db"]), G.canon_snap(got["db"])):
+            if G.diff_clause(G.canon_snap(t["db"]), G.canon_snap(got["db"])) or lookup_clause(t, got, h["universe"]):
                 return True
         return False
     if "feats" not in c:
